@@ -1,0 +1,18 @@
+//go:build verif
+// +build verif
+
+package core
+
+// Verification hooks (build tag "verif" only).
+
+// VerifResetChain forgets the chain singletons so that InitCore builds them again from the
+// stores (an in-process restart). The caller closes the stores first.
+func VerifResetChain() {
+	blockChainImpl = nil
+	groupChainImpl = nil
+}
+
+// VerifGroupChainRemoveLast removes the last group exactly as the group fork switch does.
+func VerifGroupChainRemoveLast() bool {
+	return groupChainImpl.remove(groupChainImpl.lastGroup)
+}
